@@ -10,6 +10,10 @@ structure PfItem where
   key : Nat
   ans : Nat
   reqOpts : List Opt
+  qid : Nat := 0
+  cd : Bool := false       -- the triggering request's CD bit
+  hadECS : Bool := false   -- `RequestHadECS`: client-ECS marker or a subnet option on the request
+  optEcs : Bool := false   -- a subnet option still on the queued copy
 
 /-- pipeline state: edns + cache built from one config, entries stored so far,
 denied names with a shared RFC 8020 cut. -/
@@ -17,13 +21,14 @@ structure State where
   pol : Option Policy := none          -- `ecs` ops
   ppol : Option Policy := none         -- `pipe` ops
   cap : Nat := 0
-  entries : List (Nat × Entry) := []   -- (key, entry): the abstract store
+  entries : Store := []   -- (key, entry): the abstract store
   edeAns : List Nat := []   -- answers whose entry preserved an extended error (`CacheEntry.ede`)
   cuts : List Nat := []
   pf : Nat := 0             -- prefetch threshold (0 = no queue)
   aged : List Nat := []     -- answers (= entry objects) whose remaining lifetime is below the threshold
   claimed : List Nat := []  -- entry objects holding the prefetch claim
   pfq : List PfItem := []   -- queued refreshes, oldest first
+  zoneOf : List (Nat × Nat) := []  -- question ↦ k for names below the denied name d.z<k>
 
 /-! ### parsing -/
 
@@ -128,14 +133,10 @@ def encKey : Hash := fun qid cd sc =>
   | none => base * 3
   | some p => ((base * 3 + (match p.fam with | .v4 => 1 | .v6 => 2)) * 256 + p.bits) * 2 ^ 128 + p.addr
 
-def storeFn (es : List (Nat × Entry)) : Nat → Option Entry :=
-  fun k => (es.find? (fun x => x.1 == k)).map (·.2)
+/-- the executable model uses the model's own store and step function (`Model.Ecs.cacheStep`). -/
+def storeFn (es : Store) : Nat → Option Entry := es.get
 
-def insertAt (es : List (Nat × Entry)) (k : Nat) (e : Entry) : List (Nat × Entry) :=
-  (k, e) :: es.filter (fun x => x.1 != k)
-
-def insertEntry (es : List (Nat × Entry)) (e : Entry) : List (Nat × Entry) :=
-  insertAt es (encKey e.qid e.cd e.scope) e
+def insertAt (es : Store) (k : Nat) (e : Entry) : Store := es.put k e
 
 def parseScopeTok (s : String) : Option (Option Prefix) :=
   if s == "shared" then some none else (parsePrefix s).map some
@@ -155,6 +156,20 @@ def parseKind (s : String) : Option RespKind :=
   else if s == "nx" then some .nxdomain else none
 
 def addCut (cuts : List Nat) (k : Nat) : List Nat := if cuts.contains k then cuts else k :: cuts
+
+/-- the client's OPT records of an op line: `none` = bad op line, `some none` =
+undecodable packet (raw protos only), `some (some o)` = the options sdns works
+with (`o = none`: the request has no OPT).  "A+B": several OPT records. -/
+def clientOpts (proto copts : String) : Option (Option (Option (List Opt))) :=
+  if copts == "noopt" then some (some none) else
+  match (copts.splitOn "+").mapM (fun t => (parseOpts t).bind id) with
+  | none => none
+  | some recs =>
+    if proto.startsWith "r" then
+      match recs.mapM decodeWireOpts with
+      | none => some none
+      | some dec => some (some (effectiveOpts dec))
+    else some (some (effectiveOpts recs))
 
 def buildFrom (en f4 f6 m4 m6 nets : String) : Option BuildRes := do
   let en ← parseBool en
@@ -179,6 +194,39 @@ def front (st : State) (client : Option Addr) (cd : Bool) (copts? : Option (List
   let cs := requestScope st.ppol client (some fwd)
   { noedns := copts?.isNone, copts := copts, fwd := fwd, cs := cs,
     view := rootView (ednsMarks copts?) cd (hasEcs (some fwd)) cs.isSome }
+
+/-- one client query through edns and the cache (`zone`: the name lies below the
+denied name `d.z<k>`, so a miss may be answered from a shared NXDOMAIN cut). -/
+def qCore (st : State) (proto : String) (client : Option Addr) (qid : Nat) (cd : Bool)
+    (copts? : Option (List Opt)) (ttl : Nat) (uopts : Option (List Opt)) (ans : Nat) (kind : RespKind)
+    (zone : Option Nat) : State × String :=
+  let f := front st client cd copts?
+  let ka := (proto == "tcp" || proto == "wtcp" || proto == "rtcp") && f.copts.any (fun o => o.code == 11)
+  match serveLookup encKey (storeFn st.entries) qid cd f.cs with
+  | some e =>
+    -- `CacheEntry.ToMsg` re-attaches a preserved extended error on its own OPT
+    let served : Option (List Opt) := if st.edeAns.contains e.ans then some [.other 15 "ede"] else none
+    let ropt := replyOptions f.noedns served f.fwd (serverOpts f.copts) ka
+    -- the prefetch gate of `handleCacheHit`: claim the entry and queue a copy of this request
+    let item : PfItem :=
+      { key := encKey e.qid e.cd e.scope, ans := e.ans, reqOpts := f.fwd, qid := e.qid,
+        cd := cd, hadECS := f.view.hasECS, optEcs := hasEcs (some f.fwd) }
+    let st := if prefetchEnqueues (st.pf > 0) e (st.aged.contains e.ans) && !st.claimed.contains e.ans then
+        { st with claimed := e.ans :: st.claimed, pfq := st.pfq ++ [item] }
+      else st
+    (st, s!"up=hit ans={e.ans} ropt={showOpts false ropt} st=- ttl=- pf=-")
+  | none =>
+    -- after the exact ladder: the shared RFC 8020 cut index, unless this tree bypasses it
+    if consultsCut f.view && (match zone with | some k => st.cuts.contains k | none => false) then
+      (st, "up=cut") else
+    let e := storeEntry st.ppol f.cs uopts qid cd ttl st.cap ans kind
+    let ropt := replyOptions f.noedns uopts f.fwd (serverOpts f.copts) ka
+    let stS := match e.scope with
+      | some p => showPrefix p
+      | none => "shared"
+    let hasEde := (uopts.getD []).any (fun o => o.code == 15)
+    ({ st with entries := cacheStep encKey st.ppol st.cap st.entries (.answer f.cs uopts qid cd ttl ans kind), edeAns := if hasEde then ans :: st.edeAns else st.edeAns },
+      s!"up={showOpts true (some f.fwd)} ans={ans} ropt={showOpts false ropt} st={stS} ttl={e.ttl} pf={boolStr (prefetchEligible e)}")
 
 def step (st : State) (w : List String) : State × String :=
   match w with
@@ -245,34 +293,58 @@ def step (st : State) (w : List String) : State × String :=
     | some r, some cap =>
       let pfv : Nat := prefetch.toNat?.getD 0
       let st' : State := { pol := st.pol, ppol := r.policy, cap := cap, pf := pfv }
-      (st', s!"pol={boolStr r.policy.isSome}")
+      -- `edns.buildECSPolicy` and `cache.buildCacheECSPolicy` are the same function of the config
+      let show1 (p : Option Policy) : String := match p with
+        | none => "nil"
+        | some p => s!"{boolStr p.enabled},{p.fwd4},{p.fwd6},{p.min4},{p.min6},n{p.nets.length}"
+      let pe := ednsPolicy r
+      let pc := cachePolicy r
+      (st', if show1 pe == show1 pc then s!"pol={show1 pe}" else s!"edns={show1 pe} cache={show1 pc}")
     | _, _ => (st, "bad-op")
   | ["pipe", "q", c, proto, qid, cd, copts, ttl, uopts, ans, kind] =>
-    match parseClient c true, qid.toNat?, parseBool cd, parseOpts copts, ttl.toNat?, parseOpts uopts, ans.toNat?, parseKind kind with
+    match clientOpts proto copts with
+    | some none => (st, "formerr")
+    | none => (st, "bad-op")
+    | some (some copts?) =>
+    match parseClient c true, qid.toNat?, parseBool cd, some copts?, ttl.toNat?, parseOpts uopts, ans.toNat?, parseKind kind with
     | some client, some qid, some cd, some copts?, some ttl, some uopts, some ans, some kind =>
-      let f := front st client cd copts?
-      let ka := (proto == "tcp" || proto == "wtcp") && f.copts.any (fun o => o.code == 11)
-      match serveLookup encKey (storeFn st.entries) qid cd f.cs with
-      | some e =>
-        -- `CacheEntry.ToMsg` re-attaches a preserved extended error on its own OPT
-        let served : Option (List Opt) := if st.edeAns.contains e.ans then some [.other 15 "ede"] else none
-        let ropt := replyOptions f.noedns served f.fwd (serverOpts f.copts) ka
-        -- the prefetch gate of `handleCacheHit`: claim the entry and queue a copy of this request
-        let st := if prefetchEnqueues (st.pf > 0) e (st.aged.contains e.ans) && !st.claimed.contains e.ans then
-            { st with claimed := e.ans :: st.claimed,
-                      pfq := st.pfq ++ [{ key := encKey e.qid e.cd e.scope, ans := e.ans, reqOpts := f.fwd }] }
-          else st
-        (st, s!"up=hit ans={e.ans} ropt={showOpts false ropt} st=- ttl=- pf=-")
-      | none =>
-        let e := storeEntry st.ppol f.cs uopts qid cd ttl st.cap ans kind
-        let ropt := replyOptions f.noedns uopts f.fwd (serverOpts f.copts) ka
-        let stS := match e.scope with
-          | some p => showPrefix p
-          | none => "shared"
-        let hasEde := (uopts.getD []).any (fun o => o.code == 15)
-        ({ st with entries := insertEntry st.entries e, edeAns := if hasEde then ans :: st.edeAns else st.edeAns },
-          s!"up={showOpts true (some f.fwd)} ans={ans} ropt={showOpts false ropt} st={stS} ttl={e.ttl} pf={boolStr (prefetchEligible e)}")
+      qCore st proto client qid cd copts? ttl uopts ans kind none
     | _, _, _, _, _, _, _, _ => (st, "bad-op")
+  | ["pipe", "pq", c, proto, qid, cd, copts, k, ans] =>
+    -- like `pipe q` (answer, TTL 600, no OPT options from upstream) for a name below d.z<k>
+    match clientOpts proto copts with
+    | some none => (st, "formerr")
+    | none => (st, "bad-op")
+    | some (some copts?) =>
+    match parseClient c true, qid.toNat?, parseBool cd, k.toNat?, ans.toNat? with
+    | some client, some qid, some cd, some k, some ans =>
+      qCore { st with zoneOf := (qid, k) :: st.zoneOf } proto client qid cd copts? 600 (some []) ans .success (some k)
+    | _, _, _, _, _ => (st, "bad-op")
+  | ["pipe", "refreshnx", ans, rcd] =>
+    -- every queued refresh is answered NXDOMAIN with a validated proof for d.z<k>;
+    -- `rcd`: the answers mirror the refresh query's CD bit (m) or carry a forced one (t / f)
+    match ans.toNat?, (if rcd == "m" then some none else (parseBool rcd).map some) with
+    | some ans, some rcd =>
+      let rec goNx (items : List PfItem) (i : Nat) (entries : Store) (cuts : List Nat) : Store × List Nat :=
+        match items with
+        | [] => (entries, cuts)
+        | it :: rest =>
+          let replaced := match storeFn entries it.key with
+            | some cur => cur.ans == it.ans && prefetchEligible cur
+            | none => false
+          let entries' := cacheStep encKey st.ppol st.cap entries (.refresh it.key it.ans 300 (ans + i))
+          -- publication happens only after the CAS, and only for trees without ECS / CD
+          let cuts' := if replaced && prefetchAdmitsDenial false it.cd it.hadECS it.optEcs (rcd.getD it.cd) then
+              (match st.zoneOf.find? (·.1 == it.qid) with
+               | some (_, k) => addCut cuts k
+               | none => cuts)
+            else cuts
+          goNx rest (i + 1) entries' cuts'
+      let (entries, cuts) := goNx st.pfq 0 st.entries st.cuts
+      ({ st with entries := entries, cuts := cuts, pfq := [],
+                 claimed := st.claimed.filter (fun a => !(st.pfq.any (·.ans == a))) },
+        s!"n={st.pfq.length} cuts={cuts.length}")
+    | _, _ => (st, "bad-op")
   | ["pipe", "forge", qid, cd, frm, to] =>
     -- a forged key collision: the entry stored for `frm` also sits under the key of `to`
     match qid.toNat?, parseBool cd, parseScopeTok frm, parseScopeTok to with
@@ -304,48 +376,55 @@ def step (st : State) (w : List String) : State × String :=
     | some ttl, some uopts, some ans =>
       let hasEde := (uopts.getD []).any (fun o => o.code == 15)
       -- `processPrefetch` for each queued item, in order; the i-th gets answer `ans + i`
-      let rec go (items : List PfItem) (i : Nat) (entries : List (Nat × Entry)) (ede : List Nat) (ups : List String) :
-          List (Nat × Entry) × List Nat × List String :=
+      let rec go (items : List PfItem) (i : Nat) (entries : Store) (ede : List Nat) (ups : List String) :
+          Store × List Nat × List String :=
         match items with
         | [] => (entries, ede, ups)
         | it :: rest =>
           let up := showOpts true (some (refreshForwarded st.ppol it.reqOpts))
           -- `ReplaceIfCurrent`: only the entry object that claimed the refresh may be replaced
-          match storeFn entries it.key with
-          | some cur =>
-            if cur.ans == it.ans then
-              go rest (i + 1) (insertAt entries it.key (refreshEntry cur ttl (ans + i)))
-                (if hasEde then (ans + i) :: ede else ede) (ups ++ [up])
-            else go rest (i + 1) entries ede (ups ++ [up])
-          | none => go rest (i + 1) entries ede (ups ++ [up])
+          let replaced := match storeFn entries it.key with
+            | some cur => cur.ans == it.ans && prefetchEligible cur
+            | none => false
+          go rest (i + 1) (cacheStep encKey st.ppol st.cap entries (.refresh it.key it.ans ttl (ans + i)))
+            (if replaced && hasEde then (ans + i) :: ede else ede) (ups ++ [up])
       let (entries, ede, ups) := go st.pfq 0 st.entries st.edeAns []
       ({ st with entries := entries, edeAns := ede, pfq := [],
                  claimed := st.claimed.filter (fun a => !(st.pfq.any (·.ans == a))) },
         s!"n={st.pfq.length} up={"|".intercalate ups}")
     | _, _, _ => (st, "bad-op")
-  | ["pipe", "nx", c, _proto, _qid, cd, copts, k] =>
-    match parseClient c true, parseBool cd, parseOpts copts, k.toNat? with
-    | some client, some cd, some copts?, some k =>
+  | ["pipe", "nx", c, proto, _qid, cd, copts, k, rcd] =>
+    match clientOpts proto copts with
+    | some none => (st, "formerr")
+    | none => (st, "bad-op")
+    | some (some copts?) =>
+    match parseClient c true, parseBool cd, some copts?, k.toNat?, parseBool rcd with
+    | some client, some cd, some copts?, some k, some rcd =>
       let f := front st client cd copts?
       if consultsCut f.view && st.cuts.contains k then
         (st, s!"up=f cuts={st.cuts.length}")
       else
-        let cuts := if admitsDenial f.view cd then addCut st.cuts k else st.cuts
+        -- `rcd`: the CD bit the downstream response carries (need not mirror the query's)
+        let cuts := if admitsDenial f.view rcd then addCut st.cuts k else st.cuts
         ({ st with cuts := cuts }, s!"up=t cuts={cuts.length}")
-    | _, _, _, _ => (st, "bad-op")
-  | ["pipe", "alias", c, _proto, _qid, cd, copts, k] =>
-    match parseClient c true, parseBool cd, parseOpts copts, k.toNat? with
-    | some client, some cd, some copts?, some k =>
+    | _, _, _, _, _ => (st, "bad-op")
+  | ["pipe", "alias", c, proto, _qid, cd, copts, k, rcd] =>
+    match clientOpts proto copts with
+    | some none => (st, "formerr")
+    | none => (st, "bad-op")
+    | some (some copts?) =>
+    match parseClient c true, parseBool cd, some copts?, k.toNat?, parseBool rcd with
+    | some client, some cd, some copts?, some k, some rcd =>
       let f := front st client cd copts?
-      -- the chase of the alias target: a fresh message (CD copied from the
-      -- response, no subnet option) under the outer request's context
-      let child := childView f.view cd false false
+      -- the chase of the alias target: a fresh message (CD copied from the alias
+      -- RESPONSE, no subnet option) under the outer request's context
+      let child := childView f.view rcd false false
       if consultsCut child && st.cuts.contains k then
         (st, s!"tgt=f cuts={st.cuts.length}")
       else
-        let cuts := if admitsDenial child cd || admitsDenial f.view cd then addCut st.cuts k else st.cuts
+        let cuts := if admitsDenial child rcd || admitsDenial f.view rcd then addCut st.cuts k else st.cuts
         ({ st with cuts := cuts }, s!"tgt=t cuts={cuts.length}")
-    | _, _, _, _ => (st, "bad-op")
+    | _, _, _, _, _ => (st, "bad-op")
   | _ => (st, "bad-op")
 
 end Driver.C19
